@@ -91,6 +91,7 @@ pub fn run(run: &Run) -> i32 {
                 // on the full occupancy (which equals the walk on the relevant subset)
                 let want_full = ray_attacks(s, occ, dirs);
                 let got = if rook { tables::rook_attacks(sq, Bitboard::new(occ)) } else { tables::bishop_attacks(sq, Bitboard::new(occ)) }.as_u64();
+                run.distinct_outcome_sig(got ^ if rook { 0x5555 } else { 0 }, || format!("{kind} attack set {got:#018x}"));
                 if got != want_full || want_full != want {
                     run.violation(
                         "slider-attacks",
@@ -186,9 +187,6 @@ pub fn run(run: &Run) -> i32 {
     run.family("LEAPERS-PAWNS-BETWEEN", "knight, king for 64 squares; pawn attacks for 2 x 64; between for 64 x 64", other, other, true, "");
     run.sample(J::obj(vec![("piece", J::s("rook")), ("square", J::s("d4")), ("occupancy", J::s("0x0000000800001400")), ("expected", J::s(format!("{:#018x}", ray_attacks(27, 0x0000000800001400, &ROOK_D))))]));
     run.sample(J::obj(vec![("between", J::s("a1,h8")), ("expected", J::s("0x0040201008040200"))]));
-    for v in [0u64, 1, 2, 3] {
-        run.distinct_outcome(format!("v{v}"));
-    }
     run.count("table_len", table_len as u64);
     run.assume("oracle: coordinate-loop ray walks and offset lists written in the harness; the relevant blocker masks are recomputed from geometry, not read from the engine");
     report::finish(run, n_sub + other, lookups.load(Ordering::Relaxed) + other, "all 107,648 (square, relevant-blocker subset) cases per the property, each with every single irrelevant bit, all irrelevant bits and the piece's own square added; every lookup index checked against the table length through hook H3", true)
